@@ -136,7 +136,8 @@ ALSO5 = {
     "C13": "effective_length follows the three documented length modes (polynomial identity per mode); the seed of the weighted "
            "sampler's draw does not depend on the rank; explicit rank / world size are used.",
     "C14": "a recorded extent (og_h / og_w) is measured on the version of the image the recorded operation is applied to.",
-    "C16": "per-sample and bulk accessor mark a sample unlabeled by the same threshold comparison with the same strictness.",
+    "C16": "per-sample and bulk accessor mark a sample unlabeled by the same threshold comparison with the same strictness; the "
+           "stride of a two-digit label whose low digit is a quotient is a rounded-up quotient.",
     "C18": "KDSingleCollatorWrapper returns (batch, ctx) exactly when self.return_ctx is true.",
     "C19": "__getattr__ never looks the requested name up on self again (unbounded recursion on copied / unpickled instances).",
     "C20": "start and end marker are files directly inside the destination folder of the copy.",
